@@ -1500,7 +1500,7 @@ pub(crate) fn t_switch(c: TCfg, op: SwitchOp) {
         // ---- A-enter
         let saved_primary = if with_cursor { cur_ctx } else { pre.saved };
         assert!(s.alt_saved == saved_primary, "[C17] the primary screen's saved cursor stays with the primary screen (1049 saves the cursor on entry)");
-        assert!(s.saved == clamp(pre.alt_saved), "[C17] the alternate screen has its own saved cursor");
+        assert!(s.saved == clamp(pre.alt_saved), "[C17][C02] the alternate screen has its own saved cursor, clamped to the current screen");
         assert!(s.len == rows, "[C13][C16] the alternate screen holds exactly the visible rows");
         let a = any_wit(rows, cols);
         assert!(is_blank_with(&cell_at(&t, a.i, a.c), &pre.pen) && !mark_at(&t, a.i), "[C16] every entry presents a blank alternate screen filled with the current pen");
@@ -1511,7 +1511,7 @@ pub(crate) fn t_switch(c: TCfg, op: SwitchOp) {
         assert!(dl_get(&t.dirty_lines, any_in(0, rows - 1)), "[C15] a screen switch reports every row as changed");
     } else if switches && !entering {
         // ---- A-leave (with a possibly stale parked height: R-switch)
-        assert!(s.saved == clamp(pre.alt_saved), "[C17] leaving restores the primary screen's own saved cursor context slot");
+        assert!(s.saved == clamp(pre.alt_saved), "[C17][C02] leaving restores the primary screen's own saved cursor context slot, clamped to the current screen");
         assert!(s.alt_saved == pre.saved, "[C17] the alternate screen keeps its own saved cursor");
         // height-only re-synchronisation keeps every surviving line at its absolute index
         let post_len = s.len;
